@@ -1,11 +1,11 @@
 (* ESSelect.v — executable model (M10) of the selection bookkeeping of the search step:
      (a) ESSearch._get_selection_idx_mask_            (pybads/search/es_search.py l.44-69)
-     (b) the candidate accumulation / ranking loop of ESSearch.__call__ (l.134-214)
+     (b) the candidate accumulation / ranking loop of ESSearch.__call__ (l.134-215)
      (c) the argmin + single evaluation of BADS._search_step_ (pybads/bads/bads.py l.1630-1655)
      (d) the hedge probabilities and the choice of ESSearchHedge.__call__ (search_hedge.py l.58-67)
    Floats are exact rationals.  Oracle inputs (never recomputed here): the weight vector [w0] after
    np.ceil(...).astype(int); the surviving candidates of every generation with their acquisition
-   values; the values e_i = exp(beta*(g_i - max g)); the uniform draw.  No proofs in this file. *)
+   values (numbers or NaN); the values e_i = exp(beta*(g_i - max g)); the uniform draw.  No proofs in this file. *)
 From Coq Require Import ZArith QArith List String Bool.
 From PV Require Import Model.Val.
 Import ListNotations.
@@ -141,17 +141,43 @@ Definition parents {A} (us : list A) (mask : list Z) (lamb : nat) : option (list
 
 (* ------------------------------------------------------------------ (b) ES accumulation *)
 
+(* An acquisition value: a number or NaN (None).  The loop never inspects the values except through
+   np.argsort, which ranks NaN after every number; a NaN value (an acquisition function failing on a
+   candidate) is therefore an input like any other.  The correspondence injects NaN values from
+   outside on some runs. *)
+Definition zv := option Q.
+
+(* the order np.argsort uses on floats: numbers by value, NaN after every number *)
+Definition zle_bool (a b : zv) : bool :=
+  match a, b with
+  | Some x, Some y => Qle_bool x y
+  | _, None => true
+  | None, Some _ => false
+  end.
+Definition zle (a b : zv) : Prop :=
+  match a, b with
+  | Some x, Some y => (x <= y)%Q
+  | _, None => True
+  | None, Some _ => False
+  end.
+Definition zv_eqb (a b : zv) : bool :=
+  match a, b with
+  | Some x, Some y => Qeq_bool x y
+  | None, None => true
+  | _, _ => false
+  end.
+
 (* np.argsort(z): modelled as a STABLE insertion sort of (z_i, i) comparing z only.  NumPy's
    default kind is an unstable introsort/SIMD sort, so on ties of z the real order may differ;
    the correspondence compares the returned z exactly and, when the minimum is tied, only
    requires the returned row to be a survivor carrying that z. *)
-Fixpoint ins (x : Q * nat) (l : list (Q * nat)) : list (Q * nat) :=
+Fixpoint ins (x : zv * nat) (l : list (zv * nat)) : list (zv * nat) :=
   match l with
   | [] => [x]
-  | y :: r => if Qle_bool (fst x) (fst y) then x :: l else y :: ins x r
+  | y :: r => if zle_bool (fst x) (fst y) then x :: l else y :: ins x r
   end.
-Definition sort_pairs (l : list (Q * nat)) : list (Q * nat) := fold_right ins [] l.
-Definition argsort (z : list Q) : list nat :=
+Definition sort_pairs (l : list (zv * nat)) : list (zv * nat) := fold_right ins [] l.
+Definition argsort (z : list zv) : list nat :=
   map snd (sort_pairs (combine z (seq 0 (List.length z)))).
 
 (* a[idx] for in-range indices (argsort only produces indices < length z_candidates <= length us_candidates) *)
@@ -161,43 +187,47 @@ Definition gather {A} (l : list A) (idx : list nat) : list A :=
 Section ES.
   Variable row : Type.
 
-  (* us_candidates and z_candidates are SEPARATE arrays in the code and can get out of step:
-     when a generation has no survivor (z_new.size == 0) the fallback line
-         z_candidates = np.random.rand(u_new.shape[0])            (l.166, 0 entries)
-     replaces the accumulated acquisition values by an empty array before the append. *)
+  (* us_candidates and z_candidates are SEPARATE arrays in the code; both only ever grow by the
+     survivors of the current generation and their acquisition values, in step.  When a generation
+     has no survivor (z_new.size == 0) the fallback
+         z_new = np.random.rand(u_new.shape[0])                   (l.166)
+     draws u_new.shape[0] = 0 values (acq_fcn_lcb returns one value per row of u_new, so z_new is
+     empty exactly when u_new has no row): z_new stays empty, nothing is appended to either array
+     and the ranking below is redone on the survivors accumulated so far.  (Before the repair the
+     line assigned to z_candidates and wiped the accumulated values.) *)
   Record es_state := mkES {
     usc : list row;      (* us_candidates *)
-    zc  : list Q;        (* z_candidates  *)
+    zc  : list zv;       (* z_candidates  *)
     us  : list row;      (* us = us_candidates[z_idx[0:N]] *)
-    zs  : list Q         (* z  = z_candidates[z_idx[0:N]]  *)
+    zs  : list zv        (* z  = z_candidates[z_idx[0:N]]  *)
   }.
 
   Definition es_init : es_state := mkES [] [] [] [].
 
-  (* one pass of the loop body l.134-188 given the filtered generation with its acquisition values *)
-  Definition es_step (first : bool) (lamb : nat) (st : es_state) (new : list (row * Q)) : es_state :=
+  (* one pass of the loop body l.134-188 (selection; the step-size update l.190-197 and the reproduction l.199-208
+     only shape the NEXT population, an oracle input) given the filtered generation with its acquisition values *)
+  Definition es_step (first : bool) (lamb : nat) (st : es_state) (new : list (row * zv)) : es_state :=
     let u_new := map fst new in
-    let z_new := map snd new in
-    let zc0 := match z_new with [] => [] | _ => zc st end in
+    let z_new := map snd new in   (* when empty, l.166 redraws it with u_new.shape[0] = 0 entries: still empty *)
     let usc' := if first then u_new else usc st ++ u_new in
-    let zc' := if first then z_new else zc0 ++ z_new in
+    let zc' := if first then z_new else zc st ++ z_new in
     let N := Nat.min (List.length usc') lamb in
     let idx := firstn N (argsort zc') in
     mkES usc' zc' (gather usc' idx) (gather zc' idx).
 
-  Fixpoint es_loop (first : bool) (lamb : nat) (st : es_state) (gens : list (list (row * Q))) : es_state :=
+  Fixpoint es_loop (first : bool) (lamb : nat) (st : es_state) (gens : list (list (row * zv))) : es_state :=
     match gens with
     | [] => st
     | g :: r => es_loop false lamb (es_step first lamb st g) r
     end.
 
-  (* l.210-214 (after repo commit 692d1d7):
+  (* l.211-215 (after repo commit 692d1d7):
          if us.shape[0] == 0: return us, z        -- the empty search set: a failed search
          return us[0], z[0]
      ESStuck models an IndexError on z[0]; Proofs/ESSelectProofs.v (es_never_stuck) shows it unreachable.
      Faithful for n_search_iter >= 1 only: with zero passes the code returns rows of an uninitialised
      np.empty array, the model ESEmpty. *)
-  Inductive es_out := ESPoint (u : row) (z : Q) | ESEmpty | ESStuck.
+  Inductive es_out := ESPoint (u : row) (z : zv) | ESEmpty | ESStuck.
 
   Definition es_result (st : es_state) : es_out :=
     match us st with
@@ -208,7 +238,7 @@ Section ES.
                 end
     end.
 
-  Definition es_run (lamb : nat) (gens : list (list (row * Q))) : es_out :=
+  Definition es_run (lamb : nat) (gens : list (list (row * zv))) : es_out :=
     es_result (es_loop true lamb es_init gens).
 
   (* -------------------------------------------------------------- (c) search-step argmin *)
@@ -312,25 +342,26 @@ Definition mask_case_ok (c : (list (Z * nat) * Z) * mexp) : bool :=
 Definition mask_plain_ok (c : (list Z * Z) * val) : bool :=
   val_eqb (mres_val (selection_mask (fst (fst c)) (snd (fst c)))) (snd c).
 
-Fixpoint qrow_eqb (a b : list Q) : bool :=
+(* rows of the ES cases: coordinates are numbers or NaN (None) *)
+Fixpoint zrow_eqb (a b : list zv) : bool :=
   match a, b with
   | [], [] => true
-  | x :: r, y :: s => Qeq_bool x y && qrow_eqb r s
+  | x :: r, y :: s => zv_eqb x y && zrow_eqb r s
   | _, _ => false
   end.
 
 (* ES case: (lamb, generations, expected).  When the minimal z is carried by more than one survivor
    only z and membership are compared (argsort is not stable). *)
-Definition es_case_ok (c : (nat * list (list (list Q * Q))) * es_out (list Q)) : bool :=
+Definition es_case_ok (c : (nat * list (list (list zv * zv))) * es_out (list zv)) : bool :=
   let '((lamb, gens), e) := c in
-  match es_run (list Q) lamb gens, e with
+  match es_run (list zv) lamb gens, e with
   | ESEmpty, ESEmpty => true
   | ESStuck, ESStuck => true
   | ESPoint u z, ESPoint u' z' =>
-      Qeq_bool z z' &&
-      (let ties := filter (fun p : list Q * Q => Qeq_bool (snd p) z) (List.concat gens) in
-       if (1 <? List.length ties)%nat then existsb (fun p : list Q * Q => qrow_eqb (fst p) u') ties
-       else qrow_eqb u u')
+      zv_eqb z z' &&
+      (let ties := filter (fun p : list zv * zv => zv_eqb (snd p) z) (List.concat gens) in
+       if (1 <? List.length ties)%nat then existsb (fun p : list zv * zv => zrow_eqb (fst p) u') ties
+       else zrow_eqb u u')
   | _, _ => false
   end.
 
